@@ -166,11 +166,21 @@ class Sched:
             before_root = t.root_hash
             self.db.reset_counts()
             self.db.fail_write_at = n
+            done = None
             try:
-                self.do_unit(i, unit, self.models[i])
+                done = self.do_unit(i, unit, self.models[i])
             except InjectedWriteFailure:
                 pass
             else:
+                if self.db.injected_failures == 0:
+                    # the operation needed fewer than n writes this time (an implementation may
+                    # skip bodies that earlier, failed attempts already stored): no fault was
+                    # injected, the operation simply completed
+                    self.db.fail_write_at = None
+                    self.ctx.count("fault_point_not_reached")
+                    self.models[i] = done
+                    self.remember(t.root_hash, self.models[i])
+                    return
                 self.db.fail_write_at = None
                 raise Violation("history-fault-not-propagated", "write #%d of %d failed but the operation reported success" % (n, w))
             finally:
